@@ -188,6 +188,12 @@ class Widen(Exception):
     self.name = name
 
 
+class TTWiden(Exception):
+  """the translation type (C19 ghost) of a loop-carried array is not stable: restart with the head typed 'bad'"""
+  def __init__(self, name):
+    self.name = name
+
+
 def same_type(ex, p, a, b, name, st):
   """type/shape stability of a loop-written variable; returns list of z3 conditions that must hold"""
   if isinstance(a, VInf) and isinstance(b, (VReal, VInf)) or isinstance(b, VInf) and isinstance(a, VReal):
@@ -214,6 +220,8 @@ def same_type(ex, p, a, b, name, st):
       conds = [x == y for x, y in zip(sa.shape.dims, sb.shape.dims)]
     if bool(sa.owner) != bool(sb.owner):
       raise Unsupported('loop line %d: array %s changes ownership across the back edge' % (st.lineno, name))
+    if (sa.tt or 'inv') != (sb.tt or 'inv') and (sa.tt or 'inv') != 'bad':
+      raise TTWiden(name)
     return conds
   if isinstance(a, (VTuple, VList)):
     if len(a.items) != len(b.items):
@@ -446,8 +454,13 @@ def one_loop(ex, st, p, it, module, is_for, inv, target, ordinal, optional=froze
     p.side.append(('loop-inv-init', tag, list(p.pc), g, 'value invariant holds on entry'))
   extra_locs = set()
   widened = set()
-  for attempt in range(6):
+  ttbad = set()
+  for attempt in range(10):
     head = p.fork()
+    for k in ttbad:
+      tgt_ = head.env.get(k) if not k.startswith('self.') else (head.heap[selfv.oid].get(k[5:]) if isinstance(selfv, VObj) else None)
+      if isinstance(tgt_, VArr):
+        head.store[tgt_.loc] = head.store[tgt_.loc].replace(tt='bad')
     for k in widened:
       if k in head.env and isinstance(head.env[k], VInt):
         head.env[k] = VReal(z3.ToReal(head.env[k].t))
@@ -517,10 +530,20 @@ def one_loop(ex, st, p, it, module, is_for, inv, target, ordinal, optional=froze
         for k in names:
           if k in head_env and k in q.env and k not in dead and not (k in optional and isinstance(head_env[k], VNone)):
             same_type(ex, q, head_env[k], q.env[k], k, st)
+      if isinstance(selfv, VObj):
+        for q in ends:
+          for a_ in attrs:
+            if a_ in head_attrs and a_ in q.heap[selfv.oid]:
+              same_type(ex, q, head_attrs[a_], q.heap[selfv.oid][a_], 'self.' + a_, st)
     except Widen as w:
       if w.name in widened:
         raise Unsupported('loop line %d: variable %s keeps changing numeric type' % (st.lineno, w.name))
       widened.add(w.name)
+      continue
+    except TTWiden as w:
+      if w.name in ttbad:
+        raise Unsupported('loop line %d: translation type of %s does not stabilise' % (st.lineno, w.name))
+      ttbad.add(w.name)
       continue
     break
   else:
